@@ -161,6 +161,10 @@ def observe_db(path):
         con.close()
 
 
+class Abandoned(Exception):
+    """The history left the modelled behaviour in a way the statement does not speak about."""
+
+
 def run_history(case, batch, path, ctx, observe_steps):
     """Apply the history with the given batch size. Returns (records written, dump)."""
     from flow.record import RecordDescriptor
@@ -207,7 +211,9 @@ def run_history(case, batch, path, ctx, observe_steps):
                     commit_points.add(len(written))
                 res = impl(w.write, rec)
                 if res.ok:
-                    raise RuntimeError("harness: sqlite accepted the unbindable value %r" % (vals[pos],))
+                    # an implementation that defers the refusal (binds at flush time) leaves the model without a
+                    # statement about this record: the history is abandoned, counted, and neither passes nor fails
+                    raise Abandoned("write-accepted-an-unbindable-value")
                 ctx.cls("write-raised-and-producer-continued")
             elif op[0] == "reopen":
                 res = impl(w.close)
@@ -324,7 +330,11 @@ def check(case, ctx):
         ctx.cls("batch:%d" % batch, "tables:%d" % len(tables), "evolution:%s" % evol)
         if (len(tables) >= 2 or evol) and nwrites >= batch:
             ctx.nontriv()
-        written = run_history(case, batch, p1, ctx, True)
+        try:
+            written = run_history(case, batch, p1, ctx, True)
+        except Abandoned as a:
+            ctx.cls("abandoned:%s" % a)
+            return
         db = observe_db(p1)
         check_rows(case, written, db, "after close", strict_tables=True)
         # through SqliteReader
@@ -370,7 +380,11 @@ def check(case, ctx):
         # metamorphic: other batch size, identical dump
         if case["batch2"] != batch:
             p2 = os.path.join(tmp, "b.db")
-            run_history(case, case["batch2"], p2, ctx, False)
+            try:
+                run_history(case, case["batch2"], p2, ctx, False)
+            except Abandoned as a:
+                ctx.cls("abandoned:%s" % a)
+                return
 
             def dump(p):
                 con = sqlite3.connect(p)
